@@ -234,3 +234,39 @@ func TableIs(table []bool, want func(bits func(i int) bool) bool) bool {
 	}
 	return true
 }
+
+// ValueTable is ReachTable for a boolean VALUE: table[m] reports whether, with the spec atoms set as in m, some assignment
+// of the other conditions makes v true at its definition (v's block reached and v evaluating to true).
+func ValueTable(fn *ssa.Function, v ssa.Value, at *ssa.BasicBlock, specs []AtomSpec) (table []bool, ok bool) {
+	rc := &reachCond{fn: fn, specs: specs, atoms: map[ssa.Value]int{}, nAtoms: len(specs), back: map[Edge]bool{}}
+	for _, b := range fn.Blocks {
+		for si, s := range b.Succs {
+			if s.Dominates(b) {
+				rc.back[Edge{b, si}] = true
+			}
+		}
+	}
+	for _, b := range fn.Blocks {
+		if iff, isIf := lastIf(b); isIf {
+			rc.collect(iff.Cond, 0)
+		}
+	}
+	rc.collect(v, 0)
+	if rc.nAtoms > 22 {
+		return nil, false
+	}
+	k := len(specs)
+	table = make([]bool, 1<<uint(k))
+	free := rc.nAtoms - k
+	for m := 0; m < 1<<uint(k); m++ {
+		for f := 0; f < 1<<uint(free); f++ {
+			asg := uint64(m) | uint64(f)<<uint(k)
+			memo := map[*ssa.BasicBlock]int8{}
+			if rc.blockReached(at, asg, memo, 0) && rc.evalValue(v, asg, memo, 0) {
+				table[m] = true
+				break
+			}
+		}
+	}
+	return table, true
+}
